@@ -81,11 +81,11 @@ enum { S_read, S_write, S_readv, S_writev, S_pread, S_pwrite, S_sendmsg, S_recvm
        S_accept4, S_connect, S_socket, S_socketpair, S_open, S_pipe2, S_epoll_create1, S_epoll_ctl,
        S_epoll_pwait, S_eventfd, S_inotify_init1, S_inotify_add_watch, S_fcntl, S_ioctl, S_dup2, S_dup3,
        S_waitpid, S_poll, S_nanosleep, S_fsync, S_fdatasync, S_ftruncate, S_close, S_fork, S_statx,
-       S_sendfile, S_preadv, S_pwritev, S_N };
+       S_sendfile, S_preadv, S_pwritev, S_bind, S_listen, S_N };
 static const char* const sname[S_N] = { "read", "write", "readv", "writev", "pread", "pwrite", "sendmsg", "recvmsg",
   "sendmmsg", "recvmmsg", "accept4", "connect", "socket", "socketpair", "open", "pipe2", "epoll_create1",
   "epoll_ctl", "epoll_pwait", "eventfd", "inotify_init1", "inotify_add_watch", "fcntl", "ioctl", "dup2", "dup3",
-  "waitpid", "poll", "nanosleep", "fsync", "fdatasync", "ftruncate", "close", "fork", "statx", "sendfile", "preadv", "pwritev" };
+  "waitpid", "poll", "nanosleep", "fsync", "fdatasync", "ftruncate", "close", "fork", "statx", "sendfile", "preadv", "pwritev", "bind", "listen" };
 /* fd kinds: - none/unknown, s socket, p pipe, e eventfd, i inotify, f file, E epoll */
 static const char kinds[] = "-speifE";
 #define K_N 7
@@ -237,6 +237,8 @@ int sendmmsg(int fd, struct mmsghdr* v, unsigned n, int fl) { INJ(S_sendmmsg, fd
 int recvmmsg(int fd, struct mmsghdr* v, unsigned n, int fl, struct timespec* t) { INJ(S_recvmmsg, fd); return RAW(SYS_recvmmsg, fd, v, n, fl, t); }
 int accept4(int fd, struct sockaddr* a, socklen_t* l, int fl) { int r; INJ(S_accept4, fd); r = RAW(SYS_accept4, fd, a, l, fl); setkind(r, 's'); return r; }
 int connect(int fd, const struct sockaddr* a, socklen_t l) { INJ(S_connect, fd); return RAW(SYS_connect, fd, a, l); }
+int bind(int fd, const struct sockaddr* a, socklen_t l) { INJ(S_bind, fd); return RAW(SYS_bind, fd, a, l); }
+int listen(int fd, int n) { INJ(S_listen, fd); return RAW(SYS_listen, fd, n); }
 int socket(int d, int t, int p) { int r; INJ(S_socket, -1); r = RAW(SYS_socket, d, t, p); setkind(r, 's'); return r; }
 int socketpair(int d, int t, int p, int sv[2]) { int r; INJ(S_socketpair, -1); r = RAW(SYS_socketpair, d, t, p, sv); if (r == 0) { setkind(sv[0], 's'); setkind(sv[1], 's'); } return r; }
 int open(const char* path, int flags, ...) {
@@ -653,9 +655,10 @@ out:
 static struct { uv_udp_t *rx, *tx; struct sockaddr_in addr; int nrecv; unsigned sum; char seq[64]; } ud;
 static void ud_send_cb(uv_udp_send_t* r, int status) { got[Q_udp_send]++; free(r); CB("udp_send_cb", status); }
 static int ud_send(const char* a, const char* b2) {
-  uv_udp_send_t* r = NEW(uv_udp_send_t); uv_buf_t bufs[2]; int rc;
+  uv_udp_send_t* r = NEW(uv_udp_send_t); uv_buf_t bufs[6]; int rc, n = 2;
   bufs[0] = uv_buf_init((char*) a, strlen(a)); bufs[1] = uv_buf_init((char*) b2, strlen(b2));
-  rc = A("uv_udp_send", uv_udp_send(r, ud.tx, bufs, 2, (struct sockaddr*) &ud.addr, ud_send_cb));
+  if (a[1] == '5') for (; n < 6; n++) bufs[n] = uv_buf_init("+", 1);      /* more than 4 buffers: heap-allocated copy */
+  rc = A("uv_udp_send", uv_udp_send(r, ud.tx, bufs, n, (struct sockaddr*) &ud.addr, ud_send_cb));
   if (rc) free(r); else owed[Q_udp_send]++;
   return rc;
 }
